@@ -55,8 +55,10 @@ func (c17) Gen(r *rand.Rand, tier string, run int) *core.Case {
 				// lazy reader, 4 keep with an unbuffered queue and a lazy reader (so that
 				// dispatch meets a full queue and answers calls with an error), 5 keep with
 				// an unbuffered queue whose reader takes nothing before the close callback ran, 6 keep, registered
-				// with AddHandler (a consumer function)
-				op = core.Op{Kind: "make", X: int64(r.IntN(7)), Y: int64(r.IntN(6))}
+				// with AddHandler (a consumer function), 7 keep, whose close callback - once the
+				// connection is shutting down - waits until the handler registered right after it
+				// has been closed (an application that collects its notifications in an order of its own)
+				op = core.Op{Kind: "make", X: int64(r.IntN(8)), Y: int64(r.IntN(6))}
 			case k < 6:
 				op = core.Op{Kind: "remove", X: int64(r.IntN(4)), Y: int64(r.IntN(14))} // X: 0,1 own live; 2 stale/any known; 3 random id Y
 			default:
@@ -283,6 +285,20 @@ func (c17) Run(c *core.Case, env *core.Env) {
 }
 
 func c17make(env *core.Env, st *c17state, a, kind, lazy int) *c17h {
+	if kind == 7 {
+		partnerClosed := make(chan struct{})
+		rec := c17make2(env, st, a, 7, lazy, nil, partnerClosed)
+		c17make2(env, st, a, 0, 0, partnerClosed, nil)
+		env.Probe("close-callbacks-that-wait-for-another-handler")
+		return rec
+	}
+	return c17make2(env, st, a, kind, lazy, nil, nil)
+}
+
+// c17make2: onClosed, when set, is closed once the handler's queue has been
+// closed; waitFor, when set, is what the close callback waits for when it is
+// called during the shutdown of the connection.
+func c17make2(env *core.Env, st *c17state, a, kind, lazy int, onClosed, waitFor chan struct{}) *c17h {
 	rec := &c17h{kind: kind}
 	queue := make(chan *net.Message, 4)
 	if kind >= 3 {
@@ -297,7 +313,7 @@ func c17make(env *core.Env, st *c17state, a, kind, lazy int) *c17h {
 	released := make(chan struct{})
 	filter := func(hdr *net.Header) (bool, bool) {
 		switch kind {
-		case 0, 4, 5, 6:
+		case 0, 4, 5, 6, 7:
 			return hdr.Action%2 == 0, true
 		case 1, 3:
 			if hdr.Action%3 == 0 {
@@ -322,6 +338,14 @@ func c17make(env *core.Env, st *c17state, a, kind, lazy int) *c17h {
 		st.mu.Unlock()
 		if first {
 			close(released)
+		}
+		if first && waitFor != nil {
+			st.mu.Lock()
+			shutting := st.shutdownSeq != 0
+			st.mu.Unlock()
+			if shutting {
+				<-waitFor
+			}
 		}
 	}
 	if kind == 6 {
@@ -351,6 +375,9 @@ func c17make(env *core.Env, st *c17state, a, kind, lazy int) *c17h {
 		st.mu.Lock()
 		rec.closeSeqs = append(rec.closeSeqs, seq)
 		st.mu.Unlock()
+		if onClosed != nil {
+			close(onClosed)
+		}
 	}()
 	h := env.Invoke(a, "make", fmt.Sprintf("h%d kind=%d", rec.idx, kind))
 	st.mu.Lock()
